@@ -57,6 +57,23 @@ class Source:
                     return self.class_member(c, st.value.id)
         return None, None
 
+    def class_const(self, cls: str, name: str):
+        """class-level constant:  ('str', value) for string constants, ('opaque', 'Class.NAME') otherwise."""
+        for c in self.mro(cls):
+            if c not in self.classes:
+                continue
+            for st in self.classes[c][1].body:
+                tgt = None
+                if isinstance(st, ast.Assign) and len(st.targets) == 1 and isinstance(st.targets[0], ast.Name):
+                    tgt, val = st.targets[0].id, st.value
+                elif isinstance(st, ast.AnnAssign) and isinstance(st.target, ast.Name) and st.value is not None:
+                    tgt, val = st.target.id, st.value
+                if tgt == name and not isinstance(val, ast.Name):
+                    if isinstance(val, ast.Constant) and isinstance(val.value, str):
+                        return ("str", val.value)
+                    return ("opaque", f"{c}.{name}")
+        return None
+
     def is_property(self, fd: ast.FunctionDef) -> bool:
         return any(isinstance(d, ast.Name) and d.id == "property" for d in fd.decorator_list)
 
